@@ -759,18 +759,19 @@ func init() {
 		}
 		for _, body := range bodies {
 			for rep := 0; rep < c.n(4, 8); rep++ {
+				bodyFill = []string{"", "noff", "", "zero", "noff", "ff", "", "noff"}[rep%8]
 				icc := []byte(nil)
 				if rng.Intn(2) == 0 {
 					icc = genProfile(rng, pick(rng, 300, 3000, 5000, 70000), rng.Intn(2) == 0)
 				}
 				nAnc := rng.Intn(4)
 				f := buildPNG(rng, pngOpt{w: 100, h: 100, depth: 8, ctype: 2, nAnc: nAnc, icc: icc, iccName: "p", iccLevel: 6, iccPos: rng.Intn(nAnc + 1), body: body, smallAnc: rng.Intn(2) == 0})
-				f.Name = fmt.Sprintf("png-body%d-icc%d", body, len(icc))
+				f.Name = fmt.Sprintf("png-body%d%s-icc%d", body, bodyFill, len(icc))
 				files = append(files, f)
 				jo := jpegOpt{w: 100, h: 100, precision: 8, ncomp: 3, nBefore: rng.Intn(3), nAfter: rng.Intn(3), icc: icc, chunkSize: 0, iccAfterSOF: rng.Intn(2) == 0, body: body, realTables: tables,
 					app2AfterICC: rng.Intn(2) == 0, bigTail: pick(rng, 0, 0, 3)}
 				j := buildJPEG(rng, jo)
-				j.Name = fmt.Sprintf("jpeg-body%d-icc%d-app2AfterICC%v-bigTail%d-iccAfterSOF%v", body, len(icc), jo.app2AfterICC, jo.bigTail, jo.iccAfterSOF)
+				j.Name = fmt.Sprintf("jpeg-body%d%s-icc%d-app2AfterICC%v-bigTail%d-iccAfterSOF%v", body, bodyFill, len(icc), jo.app2AfterICC, jo.bigTail, jo.iccAfterSOF)
 				files = append(files, j)
 				kind := []string{"vp8", "vp8l", "vp8x"}[rng.Intn(3)]
 				wo := webpOpt{kind: kind, w: 100, h: 100, icc: icc, flagICC: icc != nil && kind == "vp8x", body: body}
@@ -779,10 +780,11 @@ func init() {
 					wo.extraSize = pick(rng, 100, 70000, 300000)
 				}
 				wf := buildWebP(rng, wo)
-				wf.Name = fmt.Sprintf("webp-%s-body%d-icc%d-%s%d", kind, body, len(icc), wo.extra, wo.extraSize)
+				wf.Name = fmt.Sprintf("webp-%s-body%d%s-icc%d-%s%d", kind, body, bodyFill, len(icc), wo.extra, wo.extraSize)
 				files = append(files, wf)
 			}
 		}
+		bodyFill = ""
 		var jobs []job
 		for _, f := range files {
 			f := f
